@@ -61,7 +61,7 @@ func replay(path string, res *vlib.Result) {
 		}
 		// timing-dependent layouts: try a few times
 		for i := 0; i < 5; i++ {
-			ok, _, _ := runDBCase(&c, res, "replay", nil, 0, 0)
+			ok, _, _ := runDBCase(&c, res, "replay", nil, 0, 0, nil)
 			res.Eval(fmt.Sprintf("replay/%d", i), false)
 			if !ok {
 				break
@@ -90,14 +90,17 @@ func main() {
 	// budgets
 	nComp, nDBSmall, nDB := 10000, 320, 120
 	kComp, kDB := 400, 240
+	kBytes, kBytesMax := 16, 6000 // byte-level (K) states per run (one per worker), max bytes of a state
 	maxMoves := 200
 	if a.Thorough() {
 		nComp, nDBSmall, nDB = 400000, 6000, 3000
 		kComp, kDB = 3000, 1500
+		kBytes = 48
 	}
 	if a.Extra == "search" {
 		nComp, nDBSmall, nDB = 400000, 6000, 3000
 		kComp, kDB = 0, 0
+		kBytes = 0
 	}
 	const kMaxRaw, kMaxMoves, kMaxKeys = 100, 60, 40
 
@@ -116,7 +119,7 @@ func main() {
 	const W = 16
 	master := vlib.NewRNG(a.Seed)
 	type wout struct {
-		kcomp, kdb []string
+		kcomp, kdb, kbytes []string
 	}
 	outs := make([]wout, W)
 	rngs := make([]*vlib.RNG, W)
@@ -168,7 +171,11 @@ func main() {
 				}
 				c = genDBCase(r, small, mm)
 				label := fmt.Sprintf("db/%d", i)
-				_, walks, nt := runDBCase(c, res, label, kc, kMaxRaw, kMaxMoves)
+				var kb *kbytesOut
+				if small && len(o.kbytes) < (kBytes+W-1)/W {
+					kb = &kbytesOut{cases: &o.kbytes, max: kBytesMax}
+				}
+				_, walks, nt := runDBCase(c, res, label, kc, kMaxRaw, kMaxMoves, kb)
 				res.Count("db_programs", 1)
 				res.Count("db_walks", walks)
 				res.Count("db_walks_nontrivial", nt)
@@ -202,6 +209,11 @@ func main() {
 	for w := 0; w < W; w++ {
 		cases = append(cases, outs[w].kdb...)
 	}
+	// byte-level cases: spread one per shard (they are the expensive ones)
+	var bcs []string
+	for w := 0; w < W; w++ {
+		bcs = append(bcs, outs[w].kbytes...)
+	}
 	// interleave so that every shard gets a similar mix
 	mixed := make([]string, 0, len(cases))
 	shards := 16
@@ -209,11 +221,14 @@ func main() {
 		shards = 24
 	}
 	for s := 0; s < shards; s++ {
+		for i := s; i < len(bcs); i += shards {
+			mixed = append(mixed, bcs[i])
+		}
 		for i := s; i < len(cases); i += shards {
 			mixed = append(mixed, cases[i])
 		}
 	}
 	if len(mixed) > 0 {
-		res.WriteCases("From GL Require Import Corr.C02Run.", "c02case", "mismatches", mixed, shards)
+		res.WriteCases("From GL Require Import Corr.C02Run.\nFrom Coq Require Import ZArith.", "c02case", "mismatches", mixed, shards)
 	}
 }
